@@ -158,9 +158,9 @@ func runC17(c *explore.Ctx) {
 		k, K, maxDocs int
 		mode          uint32
 	}
-	sweeps := []sweep{{3, 3, 2, 1025}, {3, 4, 1, 1025}, {4, 3, 1, 1025}}
+	sweeps := []sweep{{3, 3, 2, 2}, {3, 4, 1, 1025}, {4, 3, 1, 1025}} // chunk size 2: merged lists are multi-chunk
 	if c.Thorough() {
-		sweeps = []sweep{{3, 5, 2, 1025}, {3, 3, 2, 1}, {4, 4, 1, 1025}, {4, 3, 1, 2}}
+		sweeps = []sweep{{3, 5, 2, 2}, {3, 3, 2, 1025}, {3, 3, 2, 1}, {4, 4, 1, 1025}, {4, 3, 1, 2}}
 	}
 	for _, sw := range sweeps {
 		opts := c17Opts(sw.K, sw.maxDocs)
